@@ -7,6 +7,7 @@ import (
 	"math/rand"
 	"sort"
 
+	"github.com/kardiachain/go-kardia/kvm"
 	"github.com/kardiachain/go-kardia/lib/common"
 	"github.com/kardiachain/go-kardia/lib/crypto"
 )
@@ -348,8 +349,17 @@ func Program(r *rand.Rand, w *World, self int) []byte {
 			}
 		case 16: // LOG1
 			a.PushU(uint64(r.Intn(4))).PushU(32).PushU(0).Op(opLOG1)
-		case 17: // SHA3 of a growing memory area: burns gas
-			a.PushU(uint64(32*(1+r.Intn(64)))).PushU(0).Op(opSHA3, opPOP)
+		case 17:
+			if r.Intn(2) == 0 { // SHA3 of a growing memory area: burns gas
+				a.PushU(uint64(32*(1+r.Intn(64)))).PushU(0).Op(opSHA3, opPOP)
+			} else { // record something of the execution environment in storage (block context, gas left)
+				envOps := []byte{byte(kvm.TIMESTAMP), byte(kvm.NUMBER), opCOINBASE, byte(kvm.GASLIMIT), byte(kvm.GASPRICE), opORIGIN, opCALLER, opGAS, byte(kvm.CHAINID), byte(kvm.BLOCKHASH)}
+				op := envOps[r.Intn(len(envOps))]
+				if op == byte(kvm.BLOCKHASH) {
+					a.PushU(1).Op(byte(kvm.NUMBER), byte(kvm.SUB))
+				}
+				a.Op(op).PushU(uint64(4 + r.Intn(3))).Op(opSSTORE)
+			}
 		case 18: // SELFDESTRUCT in the middle (the rest is dead code, kept for its bytes)
 			if r.Intn(3) == 0 {
 				selfdestruct(a, r, w, self)
